@@ -174,6 +174,10 @@ class W:
         body = self.pick(["Z + %s" % self.lit(t), "Z * Z", "if Z > %s then Z else %s" % (self.lit(t), self.lit(t)), "Z"]).replace("Z", z)
         lines = ["def hf%d(gg%d: %s, yy%d: %s) -> %s => gg%d(yy%d)" % (n, n, fty, n, t, t, n, n),
                  "def hr%d := hf%d(\\%s: %s => %s, %s)" % (n, n, z, t, body, self.lit(t))]
+        if self.chance(35):
+            # parameters with a default value and no declared type: of a function, and of a lambda passed on
+            lines.append("def hd%d(xx%d: %s, ff%d := %s) -> %s => xx%d * ff%d" % (n, n, t, n, self.lit(t), t, n, n))
+            lines.append("def hq%d := hf%d(\\qa%d: %s, qs%d := %s => qa%d + qs%d, hd%d(%s))" % (n, n, n, t, n, self.lit(t), n, n, n, self.lit(t)))
         if self.chance(40):
             lines.append("def hh%d(gg%d: (%s, %s) -> %s) -> %s => gg%d(%s, %s)" % (n, n, t, t, t, t, n, self.lit(t), self.lit(t)))
             lines.append("def hs%d := hh%d(\\la%d: %s, lb%d: %s => la%d + lb%d)" % (n, n, n, t, n, t, n, n))
@@ -318,6 +322,11 @@ class W:
         lines = []
         for s in names:
             lines += getattr(self, "s_" + s)()
+        if not only and self.chance(20):
+            # a module doc-string as the very first statement (whatever the generator puts at the top of the module - its own
+            # imports - has to go around it)
+            lines = [self.pick(['""" module doc """', '"""Helpers.\n\nSecond paragraph."""', '""""""'])] + lines
+            names = names + ["module_docstring_first"]
         return "\n".join(lines) + "\n", names
 
 
